@@ -44,8 +44,8 @@ MANIFEST_ENTRY = {
     "technique": "Lean 4 proof (structural induction, decide +kernel over a generated table) + translator + "
                  "model/implementation correspondence + end-to-end oracle on the booted application",
 }
-PROP_FILES = ["DashLive/Props/C07.lean"]
-LEAN_TARGETS = ["DashLive.Props.C07"]
+PROP_FILES = ["DashLive/Props/C07.lean", "DashLive/Props/C07Dt.lean"]
+LEAN_TARGETS = ["DashLive.Props.C07", "DashLive.Props.C07Dt"]
 GENERATORS = [gen_options.main]
 TRUSTED = [
     "harness/gen_options.py: codec kind assigned from the identity of the registered from_string/to_string "
